@@ -12,7 +12,9 @@ use serde_json::{json, Value};
 use std::hash::BuildHasherDefault;
 
 fn is_check(c: u64) -> bool {
-    let near = |x: u64| (c % x) < 3 || (c % x) > x - 3;
+    // c is exactly the number of reinit / reset calls the object has gone through (a check point only adds items): every
+    // count within 6 of a multiple of 2^16 (and of 2^8 early on) is followed by a comparison
+    let near = |x: u64| (c % x) <= 6 || (c % x) >= x - 6;
     (near(256) && c < 2000) || near(65536) || c % 9973 == 0
 }
 
@@ -46,7 +48,6 @@ fn join_kind(kind: &str, m: usize, cycles: u64, seed: u64) -> Value {
                                     "reused": old.public_bits().iter().map(|x| x.to_string()).collect::<Vec<_>>(),
                                     "new_object": fresh.public_bits().iter().map(|x| x.to_string()).collect::<Vec<_>>()}));
                 }
-                old.reinit();
             }
         }
         (bad, checks, true)
@@ -86,7 +87,6 @@ macro_rules! dens_kind {
                                         "reused": old.get_hsketch_u64().iter().map(|x| x.to_string()).collect::<Vec<_>>(),
                                         "new_object": fresh.get_hsketch_u64().iter().map(|x| x.to_string()).collect::<Vec<_>>()}));
                     }
-                    old.reinit();
                 }
             }
             (bad, checks)
